@@ -231,7 +231,7 @@ static void grid_phase(int G, bool ortho, int epSel) {
 // grid-point pair as connector (one router); then B is deleted or moved one cell.  (Routes that are held away from B by A, so
 // that B's removal opens a shorter way without any route vertex on B.)
 static void bar_block_phase(int G, int step) {
-    ctx.phase(mcx::fmt("polyline bar+block family on grid %d: every free grid-point pair (every %d-th), then delete / move the block", G, step));
+    ctx.phase(mcx::fmt("polyline bar+block family on grid %d: every free grid-point pair (every %d-th), then delete / move the block, or move the bar and delete the block in one transaction", G, step));
     for (int orient = 0; orient < 2; orient++) for (int a0 = 0; a0 < G; a0++) for (int a1 = a0 + 2; a1 <= G; a1++) for (int ay = 0; ay < G; ay++)
     for (int b0 = 0; b0 < G; b0++) for (int b1 = b0 + 2; b1 <= G; b1++) for (int bx = 0; bx < G; bx++) for (int bw = 1; bw <= 2 && bx + bw <= G; bw++) {
         Rc A = orient ? Rc{ay, a0, ay + 1, a1, true, false} : Rc{a0, ay, a1, ay + 1, true, false};
@@ -240,16 +240,27 @@ static void bar_block_phase(int G, int step) {
         World w0; w0.shapes = {A, B}; vector<array<int, 2>> fr; for (int x = 0; x <= G; x++) for (int y = 0; y <= G; y++) { bool in = false; for (auto &sh : w0.shapes) if (x >= sh.x0 && x <= sh.x1 && y >= sh.y0 && y <= sh.y1) in = true; if (!in) fr.push_back({x, y}); }
         size_t c = 0; for (size_t i = 0; i < fr.size(); i++) for (size_t j = i + 1; j < fr.size(); j++) if ((c++ % step) == 0) w0.conns.push_back({fr[i][0], fr[i][1], fr[j][0], fr[j][1]});
         ctx.sample(world_str(w0).substr(0, 60) + " ...", 1); ctx.count("nontrivial");
-        for (int n = 0; n < 5; n++) {
+        for (int n = 0; n < 7; n++) {   // 5, 6: TWO obstacles edited in one transaction (the bar re-registered in place / moved one cell, and the block deleted)
             World w = w0; Avoid::Router *r = mk(false, true); vector<Avoid::ShapeRef *> sh; for (auto &s2 : w.shapes) sh.push_back(mk_shape(r, s2));
             vector<Avoid::ConnRef *> lc; for (auto &cn : w.conns) lc.push_back(new Avoid::ConnRef(r, Avoid::ConnEnd(Avoid::Point(cn.x0 * S, cn.y0 * S)), Avoid::ConnEnd(Avoid::Point(cn.x1 * S, cn.y1 * S))));
             string desc = mcx::fmt("polyline start shapes: [%d,%d..%d,%d] [%d,%d..%d,%d] (%zu connectors) edit: ", A.x0, A.y0, A.x1, A.y1, B.x0, B.y0, B.x1, B.y1, w.conns.size());
             try { r->processTransaction();
                 if (n == 0) { r->deleteShape(sh[1]); w.shapes[1].alive = false; desc += "delete(block)"; }
+                else if (n >= 5) { int dx = (n == 6 && orient) ? -1 : 0, dy = (n == 6 && !orient) ? -1 : 0; Rc &ca = w.shapes[0]; if (ca.x0 + dx < 0 || ca.y0 + dy < 0) { delete r; continue; }
+                    r->moveShape(sh[0], dx * S, dy * S); ca.x0 += dx; ca.x1 += dx; ca.y0 += dy; ca.y1 += dy; ca.touched = true; r->deleteShape(sh[1]); w.shapes[1].alive = false; desc += mcx::fmt("move(bar,%+d,%+d) delete(block) in one transaction", dx, dy); }
                 else { int dx = n == 1 ? 1 : n == 2 ? -1 : 0, dy = n == 3 ? 1 : n == 4 ? -1 : 0; r->moveShape(sh[1], dx * S, dy * S); Rc &cc = w.shapes[1]; cc.x0 += dx; cc.x1 += dx; cc.y0 += dy; cc.y1 += dy; cc.touched = true; desc += mcx::fmt("move(block,%+d,%+d)", dx, dy); }
                 ctx.count("transitions"); r->processTransaction(); judge(w, r, lc, false, desc); delete r;
             } catch (vpsc::CriticalFailure &f) { ctx.library_abort(f.what(), desc); }
         }
+        // a third shape -- a 1x1 pebble created BEFORE the block, at every free cell -- and pebble and block deleted in ONE transaction: the re-route scan
+        // runs once per removed obstacle over all connectors, and a connector may need the block's region although only the pebble's scan marked anything
+        if (step >= 3) for (int px = 0; px < G; px++) for (int py = 0; py < G; py++) { Rc Pb{px, py, px + 1, py + 1, true, false}; if (overlapR(Pb, A) || overlapR(Pb, B)) continue;
+            World w; w.shapes = {A, Pb, B}; for (auto &cn : w0.conns) { bool in = false; for (int q = 0; q < 2; q++) { int x = q ? cn.x1 : cn.x0, y = q ? cn.y1 : cn.y0; if (x >= Pb.x0 && x <= Pb.x1 && y >= Pb.y0 && y <= Pb.y1) in = true; } if (!in) w.conns.push_back(cn); }
+            Avoid::Router *r = mk(false, true); vector<Avoid::ShapeRef *> sh; for (auto &s2 : w.shapes) sh.push_back(mk_shape(r, s2));
+            vector<Avoid::ConnRef *> lc; for (auto &cn : w.conns) lc.push_back(new Avoid::ConnRef(r, Avoid::ConnEnd(Avoid::Point(cn.x0 * S, cn.y0 * S)), Avoid::ConnEnd(Avoid::Point(cn.x1 * S, cn.y1 * S))));
+            string desc = mcx::fmt("polyline start shapes: [%d,%d..%d,%d] pebble [%d,%d..%d,%d] [%d,%d..%d,%d] (%zu connectors) edit: delete(pebble) delete(block) in one transaction", A.x0, A.y0, A.x1, A.y1, Pb.x0, Pb.y0, Pb.x1, Pb.y1, B.x0, B.y0, B.x1, B.y1, w.conns.size());
+            try { r->processTransaction(); r->deleteShape(sh[1]); w.shapes[1].alive = false; r->deleteShape(sh[2]); w.shapes[2].alive = false; ctx.count("transitions"); r->processTransaction(); judge(w, r, lc, false, desc); delete r; }
+            catch (vpsc::CriticalFailure &f) { ctx.library_abort(f.what(), desc); } }
         ctx.done_case();
     }
 }
@@ -295,6 +306,7 @@ int main(int argc, char **argv) {
     ctx.init(argc, argv);
     bool T = ctx.thorough();
     for (int ortho = 0; ortho < 2; ortho++) { phase(2, 1, 1, ortho, true, 1, 1); phase(2, 1, 2, ortho, true, 1, 1); phase(2, 1, 2, ortho, false, 1, 2); phase(2, 1, 2, ortho, true, 2, 2); phase(3, 2, 1, ortho, true, 1, 2); }
+    phase(3, 2, 2, false, true, 2, 2);   // three shapes, two connectors, two edits in ONE transaction (the per-obstacle re-route scan sees several obstacles and several connectors)
     for (int ortho = 0; ortho < 2; ortho++) { phase(2, 1, 1, ortho, true, 1, 1, true); phase(2, 1, 2, ortho, true, 2, 1, true); phase(2, 1, 2, ortho, true, 1, 2, true); }
     g_pins = false;
     enclosure_phase(1, true); enclosure_phase(2, true); enclosure_phase(2, false);
